@@ -9,15 +9,15 @@ TECH = 'symbolic execution of the clang-14 LLVM IR of the real sources (own exec
        'counterexamples replayed natively (ASan+UBSan)'
 
 CHECKS = {
-    'C01': dict(cat='model_checking', ref='§C01',
+    'C01': dict(cat='model_checking', ref='DESIGN.md §2 row C01',
                 text='Codec round-trip lemma decided by z3 over all member values for every creatable class within the '
                      'payload-length bound; pipeline-level composition is by the lemmas of C15/C16/C04/C17.',
                 note='bounded: container lengths <= 4 quick / <= 8 thorough; zlib and OS file trusted; engine models listed in evidence.trusted_base'),
-    'C03': dict(cat='model_checking', ref='§C03',
+    'C03': dict(cat='model_checking', ref='DESIGN.md §2 row C03',
                 text='Framing obligations (headerSize, objectSize, padding, consumption, no stale-field dependence, no OOB '
                      'while encoding) decided per symbolic path by z3 for every creatable class.',
                 note='bounded payload lengths; padding-type set taken from the reference logs'),
-    'C14': dict(cat='model_checking', ref='§C14',
+    'C14': dict(cat='model_checking', ref='DESIGN.md §2 row C14',
                 text='Never-written memory is modelled as unconstrained symbols; no emitted byte may depend on one '
                      '(populated and default-constructed objects of every class).',
                 note='bounded payload lengths; schedule-independence of container boundaries is argued via C15'),
@@ -27,59 +27,59 @@ NA = {
 }
 
 CHECKS.update({
-    'C02': dict(cat='model_checking', ref='§C02',
+    'C02': dict(cat='model_checking', ref='DESIGN.md §2 row C02',
                 text='Each reference-log object image is decoded with ALL bytes after the base header symbolic at once, '
                      'constrained to the decode path (shape) of the original; z3 decides that re-encoding reproduces every byte.',
                 note='quick: one image per type; thorough: all 512; padding bytes kept concrete'),
-    'C04': dict(cat='model_checking', ref='§C04',
+    'C04': dict(cat='model_checking', ref='DESIGN.md §2 row C04',
                 text='Whole write sessions of the real File run symbolically (cooperative threads, stub fstream/zlib); the finished file is '
                      'walked by an independent decoder in the harness and compared with the objects\' encodings for all field values.',
                 note='zlib by contract model; 3 quick / 10 thorough configurations; 4 objects; one schedule'),
-    'C05': dict(cat='model_checking', ref='§C05',
+    'C05': dict(cat='model_checking', ref='DESIGN.md §2 row C05',
                 text='Header bytes after close() compared with an independent container walk and with the reader\'s running counters, '
                      'caller-supplied header fields symbolic.',
                 note='as C04'),
-    'C06': dict(cat='model_checking', ref='§C06',
+    'C06': dict(cat='model_checking', ref='DESIGN.md §2 row C06',
                 text='Circular-wait freedom decided by z3 on the real wait predicates from an arbitrary symbolic stream/queue state '
                      '(unbounded sizes), abort releases all waiters; whole sessions incl. early close run with deadlock detection.',
-                note='monitor reduction (C11 premise); sessions explore one cooperative schedule; read-session finding F1 recorded'),
-    'C07': dict(cat='model_checking', ref='§C07',
+                note='monitor reduction (C11 premise); sessions on two base schedules (run-until-block, child-first), early-close and buffer==container sessions under every one-preemption schedule, no-lost-wake-up lemmas; read-session finding (chunk > buffer) recorded'),
+    'C07': dict(cat='model_checking', ref='DESIGN.md §2 row C07',
                 text='Complete write+read sessions executed symbolically under every schedule with at most one preemption at a mutex '
                      'release / thread start; on every schedule file bytes and delivered objects must match the schedule-free expectation.',
                 note='2 objects; preemption bound 1 complete; deeper interleavings by the monitor reduction (C11, C15, C16)'),
-    'C08': dict(cat='model_checking', ref='§C08',
+    'C08': dict(cat='model_checking', ref='DESIGN.md §2 row C08',
                 text='A file written inside the symbolic run is cut at EVERY offset (complete enumeration); the real read pipeline must '
                      'deliver exactly the objects of completely stored containers (independent walk), unmodified for all field values, then end.',
                 note='4 objects; 2 quick / 6 thorough configurations; zlib by contract model'),
-    'C09': dict(cat='model_checking', ref='§C09',
+    'C09': dict(cat='model_checking', ref='DESIGN.md §2 row C09',
                 text='Signature matcher executed on fully symbolic filler; unknown objects (symbolic unassigned code, arbitrary body) and filler '
                      'between objects, also across containers, read through the real pipeline; neighbours must come back identical.',
                 note='filler <= 7/9 bytes (matcher), <= 3 bytes (file level); five unknown sizes'),
-    'C10': dict(cat='model_checking', ref='§C10',
+    'C10': dict(cat='model_checking', ref='DESIGN.md §2 row C10',
                 text='Every decoder runs on symbolic bytes with bounds/lifetime-checked memory; the whole three-thread read '
                      'pipeline runs on a file with a symbolic object header and must terminate (deadlock and step-budget detection).',
                 note='bounded stream sizes; allocation classes; 4 string-heavy decoders excluded from the per-decoder harness (stated); real zlib outside'),
-    'C11': dict(cat='model_checking', ref='§C11',
+    'C11': dict(cat='model_checking', ref='DESIGN.md §2 row C11',
                 text='Same schedule exploration with an adversarial consumer (delete right after read()) on lifetime-checked memory and a '
                      'vector-clock happens-before race detector over every non-atomic access.',
                 note='2 objects; preemption bound 1; races needing >= 2 preemptions outside; native confirmation by chaos-schedule stress replay under ASan'),
-    'C12': dict(cat='model_checking', ref='§C12',
+    'C12': dict(cat='model_checking', ref='DESIGN.md §2 row C12',
                 text='llsym accounts every allocation of the real pipeline during symbolically executed sessions over files of N and 3N '
                      'objects (saturating scaled-down thresholds); the live-heap peak must not grow with N; growth is re-measured natively.',
                 note='sizes N, 3N (6N thorough); thresholds scaled via private members; one cooperative schedule; extrapolation by induction argument'),
-    'C13': dict(cat='model_checking', ref='§C13',
+    'C13': dict(cat='model_checking', ref='DESIGN.md §2 row C13',
                 text='All API call histories up to the bound are enumerated; each runs the real File with its workers on llsym\'s lifetime-checked '
                      'heap: leaks, double frees, use after free, unjoined threads and wrong is_open/good/eof are reported.',
                 note='history length 4 quick / 6 thorough (12 in the property text is outside); files of 2 objects; one schedule per history'),
-    'C15': dict(cat='model_checking', ref='§C15',
+    'C15': dict(cat='model_checking', ref='DESIGN.md §2 row C15',
                 text='Real UncompressedFile (with real libstdc++ list/shared_ptr/vector code) executed on bounded operation histories with '
                      'symbolic data bytes and completely enumerated chunkings; every byte and observer compared with a flat byte-queue model.',
                 note='histories of length 3 quick / 4 thorough; containers 1..3 bytes; chunks <= 3 bytes; seek-back into dropped data outside'),
-    'C16': dict(cat='model_checking', ref='§C16',
+    'C16': dict(cat='model_checking', ref='DESIGN.md §2 row C16',
                 text='Real ObjectQueue methods from an arbitrary (symbolic 32-bit) counter state against a reference model; blocking, eof, abort, '
                      'no-lost-wake-up obligations decided by z3 with the real wait predicates evaluated in probe mode.',
                 note='sequences of 3 quick / 5 thorough operations; concurrency by monitor reduction (every method holds the mutex: C11)'),
-    'C17': dict(cat='model_checking', ref='§C17',
+    'C17': dict(cat='model_checking', ref='DESIGN.md §2 row C17',
                 text='File::createObject executed for a symbolic 32-bit code (one path per switch arm, z3 feasibility), compared with the '
                      'File.h class/code table; every class default-constructed in symbolic-garbage memory.',
                 note='class/code oracle = include comments of File.h + ObjectType enumerators'),
